@@ -3,7 +3,7 @@ from __future__ import annotations
 import argparse
 import json
 import logging
-import shutil
+import os
 import tempfile
 import zipfile
 from pathlib import Path
@@ -74,10 +74,13 @@ def _update_file(
         )
         return None
 
-    with tempfile.TemporaryDirectory() as tmp_dir:
-        tmp_output_file = Path(tmp_dir) / f"{output_file}.tmp"
+    # write next to the destination so that the final step is an atomic rename
+    # on the same file system, whatever form the destination path has
+    destination = Path(output_file)
+    with tempfile.TemporaryDirectory(dir=destination.parent) as tmp_dir:
+        tmp_output_file = Path(tmp_dir) / f"{destination.name}.tmp"
         dump(input_model, tmp_output_file)
-        shutil.move(str(tmp_output_file), str(output_file))
+        os.replace(tmp_output_file, destination)
     logger.info(f"Updated skops file written to {output_file}")
 
 
